@@ -83,6 +83,31 @@ var witnesses = []fw.Witness{
 		}
 		return ""
 	}},
+	{Prop: "C02", Name: "right-delimiter-starting-like-the-trim-marker", Run: func() string {
+		for src, want := range map[string]string{"a{{ 1 + 1 -}  b{{ 2 - -}   c": "a2  b2c", "{{x -}": "", "a{{ 1": "ERR", "{{ -}": "ERR"} {
+			r := jx.Run(map[string]string{"/t.jet": src}, "/t.jet", jet.VarMap{}.Set("x", ""), nil, jx.NoEscape, jet.WithDelims("{{", " -}"))
+			if r.Panic != nil || (want == "ERR") != (r.ParseErr != nil) || (want != "ERR" && (r.Err != nil || r.Out != want)) {
+				return fmt.Sprintf("%q with delimiters {{ and ' -}': %s, want %q", src, r, want)
+			}
+		}
+		return ""
+	}},
+	{Prop: "C02", Name: "percent-sign-in-template-name", Run: func() string {
+		set, _ := jx.NewSet(map[string]string{"/dir%20x/b%d.jet": "x\n{{ if }}"})
+		for _, get := range []bool{false, true} {
+			var err error
+			if get {
+				_, err = set.GetTemplate("/dir%20x/b%d.jet")
+			} else {
+				_, err = set.Parse("/a%20b%s.jet", "x\n{{ if }}")
+			}
+			name := map[bool]string{false: "/a%20b%s.jet", true: "/dir%20x/b%d.jet"}[get]
+			if err == nil || !strings.HasPrefix(err.Error(), "template: "+name+":2: ") || strings.Contains(err.Error(), "%!") {
+				return fmt.Sprintf("error for template %q: %v", name, err)
+			}
+		}
+		return ""
+	}},
 	{Prop: "C02", Name: "stray-control-actions-rejected", Run: func() string {
 		for _, src := range []string{"{{catch e}}x{{end}}", "{{if x}}{{content}}{{end}}", "{{try}}{{else}}{{end}}", "{{range x}}{{catch}}{{end}}{{end}}"} {
 			if r := wone(src, nil, nil); r.ParseErr == nil {
